@@ -292,13 +292,83 @@ fn cells(tier: Tier, seed: u64) -> Vec<Cell> {
     v
 }
 
+/// One reservoir of millions of slots: with n = 4k every position is kept with probability exactly 1/4, so each
+/// quarter of the stream, and each residue class of the first k positions modulo 3, 5 and 7, must hold its share of
+/// the reservoir (the slot a kept element overwrites has to be uniform over all k slots, also for k near 2^24).
+#[derive(Clone, Debug, Serialize, Deserialize)]
+pub struct BigCell {
+    pub k: usize,
+    pub seed: u64,
+}
+
+pub struct BigK;
+
+impl Check for BigK {
+    type Case = BigCell;
+    fn name(&self) -> &'static str {
+        "huge_reservoir"
+    }
+    fn eval(&self, c: &BigCell) -> Verdict {
+        let (k, n) = (c.k, 4 * c.k);
+        let mut rs: ReservoirSampling<u32, ChaCha8Rng> = ReservoirSampling::new(k, ChaCha8Rng::seed_from_u64(c.seed));
+        for i in 0..n as u32 {
+            rs.add(i);
+        }
+        let res = rs.reservoir();
+        if res.len() != k {
+            return fail("huge-reservoir:len", format!("reservoir holds {} of k = {} items after {} adds", res.len(), k, n));
+        }
+        // quarters of the stream: hypergeometric-like, variance below k * (1/4)(3/4)
+        let mut quarters = [0u64; 4];
+        let mut residues: Vec<Vec<u64>> = vec![vec![0; 3], vec![0; 5], vec![0; 7]];
+        let mut first_k = 0u64;
+        for &p in res.iter() {
+            quarters[(p as usize / k).min(3)] += 1;
+            if (p as usize) < k {
+                first_k += 1;
+                for (j, m) in [3usize, 5, 7].iter().enumerate() {
+                    residues[j][p as usize % m] += 1;
+                }
+            }
+        }
+        let exp = k as f64 / 4.0;
+        let sd = (k as f64 * 3.0 / 16.0).sqrt();
+        for (qi, &cnt) in quarters.iter().enumerate() {
+            if (cnt as f64 - exp).abs() > 8.0 * sd {
+                return fail(
+                    "huge-reservoir:quarter-share",
+                    format!("k = {}, n = 4k: quarter {} of the stream holds {} reservoir slots, expected {:.0} +- {:.0} (8 sigma = {:.0})", k, qi, cnt, exp, sd, 8.0 * sd),
+                );
+            }
+        }
+        for (j, m) in [3usize, 5, 7].iter().enumerate() {
+            let e = first_k as f64 / *m as f64;
+            let s = (first_k as f64 / *m as f64).sqrt();
+            for (r, &cnt) in residues[j].iter().enumerate() {
+                if (cnt as f64 - e).abs() > 8.0 * s + 1.0 {
+                    return fail(
+                        "huge-reservoir:residue-share",
+                        format!("k = {}, n = 4k: of the {} surviving first-k positions {} are = {} mod {}, expected {:.0} +- {:.0}", k, first_k, cnt, r, m, e, s),
+                    );
+                }
+            }
+        }
+        let mut i = Info::new(true, hash_json(c));
+        i.inner_evals = n as u64;
+        Verdict::Pass(i)
+    }
+}
+
 pub fn checks() -> Vec<Box<dyn DynCheck>> {
-    vec![Box::new(C05)]
+    vec![Box::new(C05), Box::new(BigK)]
 }
 
 pub fn run(ctx: &Ctx) {
-    ctx.set_rule("cells (k, n): exact regime n <= 4k+1 for k in {1,2,3,4,8,16,32} (thorough also 64, 100) with n in {k+1,k+2,2k,3k,4k-1,4k,4k+1} plus generated n; gap regime k in {64,128,256} (thorough 1024) with n from 4k+2 to 64k and 100000 plus generated n, and one cell k = 16, n = 4.8e7 (n/k = 3e6). Each cell runs many independent trials (SmallRng / ChaCha8 seeded from VERIF_SEED), the stream being position ids. Exact regime: every single position's inclusion count against Binomial(T, k/n) at z = 6 plus a chi-square over positions; gap regime: classes first k / plain phase / switch item / the k items after it / stream deciles / last k against k/n within the documented envelope (1 + ln(n/4k))/k plus 6 cluster-robust standard errors. A flagged cell is re-measured with 4x the trials and fresh seeds; only a confirmed deviation is a violation. Eight further cells feed a sampler, clear() it and then measure the same frequencies on the reused sampler. Non-trivial: every cell with n > k; distinct = (k, n, rng family, prefill). evaluations = cells + adds executed.");
+    ctx.set_rule("cells (k, n): exact regime n <= 4k+1 for k in {1,2,3,4,8,16,32} (thorough also 64, 100) with n in {k+1,k+2,2k,3k,4k-1,4k,4k+1} plus generated n; gap regime k in {64,128,256} (thorough 1024) with n from 4k+2 to 64k and 100000 plus generated n, and one cell k = 16, n = 4.8e7 (n/k = 3e6). Each cell runs many independent trials (SmallRng / ChaCha8 seeded from VERIF_SEED), the stream being position ids. Exact regime: every single position's inclusion count against Binomial(T, k/n) at z = 6 plus a chi-square over positions; gap regime: classes first k / plain phase / switch item / the k items after it / stream deciles / last k against k/n within the documented envelope (1 + ln(n/4k))/k plus 6 cluster-robust standard errors. A flagged cell is re-measured with 4x the trials and fresh seeds; only a confirmed deviation is a violation. huge_reservoir: k = 3*2^20, 3*2^22 (thorough also 2^24 + 12345), n = 4k, one trial each: every quarter of the stream holds k/4 of the slots and the surviving first-k positions are spread evenly over the residues modulo 3, 5, 7 (8 sigma). Eight further cells feed a sampler, clear() it and then measure the same frequencies on the reused sampler. Non-trivial: every cell with n > k; distinct = (k, n, rng family, prefill). evaluations = cells + adds executed.");
     ctx.assume("probability is taken over SmallRng (xoshiro256++) and ChaCha8 seeds; z = 6 one-sided per assertion with confirmation");
     ctx.run_regressions(&[&C05]);
     ctx.run_fixed(&C05, cells(ctx.tier, ctx.seed));
+    // reservoirs of millions of slots (k below, near and above 2^24)
+    let big: Vec<BigCell> = [3usize << 20, 3 << 22, (1 << 24) + 12_345].iter().take(ctx.tier.pick(2, 3)).map(|&k| BigCell { k, seed: mix(ctx.seed, k as u64) }).collect();
+    ctx.run_fixed(&BigK, big);
 }
